@@ -85,19 +85,29 @@ def sis_case(draw):
     I0, _ = draw(gen.initial_sets(gc['nodes'], allow_R=False, max_I=2))
     tmin = draw(st.sampled_from([0, 0, -1.5, 2]))
     tmax = tmin + draw(st.sampled_from([2, 3.5, 5, 8, 8]))
-    return {'gc': gc, 'dur': dur, 'delays': delays, 'I0': I0, 'tmin': tmin, 'tmax': tmax, 'late': late,
+    case = {'gc': gc, 'dur': dur, 'delays': delays, 'I0': I0, 'tmin': tmin, 'tmax': tmax, 'late': late,
             'api': draw(st.sampled_from(['two', 'joint'])), 'single': draw(st.booleans())}
+    if draw(st.integers(0, 2)) == 0:
+        # extra-argument options: the rules take a time scale each (trans_time_args / rec_time_args / trans_and_rec_time_args)
+        case['args'] = draw(st.sampled_from([[2.0, 1.0], [0.5, 1.0], [1.0, 2.0], [1.0, 0.5], [0.5, 2.0], [2.0, 2.0]]))
+    # the rule hands back its stored list objects (entries of a look-up table) rather than fresh copies
+    case['shared_lists'] = draw(st.booleans())
+    return case
 
 
 def prop_ref(case):
     import EoN
     nodes, adj = oracles.adjacency(case['gc'])
     pairs = [(u, v) for u in nodes for v in adj[u]]
-    dur = dict(zip(nodes, case['dur']))
-    delays = dict(zip(pairs, case['delays']))
+    a_tr, a_rec = case.get('args') or (1.0, 1.0)
+    dur = {u: [x * a_rec for x in xs] for u, xs in zip(nodes, case['dur'])}             # what the user's rules mean with their extra arguments
+    delays = {pq: [[x * a_tr for x in xs] for xs in lists] for pq, lists in zip(pairs, case['delays'])}
+    raw_dur = dict(zip(nodes, case['dur']))
     I0 = [oracles.tolabel(u) for u in case['I0']]
     tmin, tmax = case['tmin'], case['tmax']
     late = bool(case.get('late'))
+    with_args = bool(case.get('args'))
+    shared = bool(case.get('shared_lists'))
     events, coincide = reference(nodes, adj, dur, delays, I0, tmin, tmax, late=late)
     if coincide:
         return Result([], nontrivial=False, classes=['discarded-coincidence'])
@@ -122,20 +132,25 @@ def prop_ref(case):
         count = {u: 0 for u in nodes}
         budget = CallBudget(2000 * (N + len(pairs) + 1), 'delay/duration rule')
 
-        def rec(u):
+        raw_delays = {pq: [list(xs) for xs in lists] for pq, lists in zip(pairs, case['delays'])}    # this run's own table
+
+        def rec(u, scale=1.0):
             budget.tick()
             k = count[u]
             count[u] += 1
-            return dur[u][k % len(dur[u])]
+            return raw_dur[u][k % len(raw_dur[u])] * scale
 
-        def trans(u, v, d):
+        def trans(u, v, d, scale=1.0):
             budget.tick()
             k = count[u] - 1
-            return [x for x in delays[(u, v)][k % len(delays[(u, v)])] if x < d or late]
+            lst = raw_delays[(u, v)][k % len(raw_delays[(u, v)])]
+            if shared and scale == 1.0 and (late or all(x < d for x in lst)):
+                return lst                  # the table entry itself: it is the user's object and will be handed out again
+            return [x * scale for x in lst if x * scale < d or late]
 
-        def joint(u, nbrs):
-            d = rec(u)
-            return {v: trans(u, v, d) for v in nbrs}, d
+        def joint(u, nbrs, s_tr=1.0, s_rec=1.0):
+            d = rec(u, s_rec)
+            return {v: trans(u, v, d, s_tr) for v in nbrs}, d
         return rec, trans, joint
 
     for full in (False, True):
@@ -145,8 +160,12 @@ def prop_ref(case):
         kw = dict(initial_infecteds=(I0[0] if case.get('single') and len(I0) == 1 else list(I0)), tmin=tmin, tmax=tmax, return_full_data=full)
         try:
             if case['api'] == 'two':
+                if with_args:
+                    kw.update(trans_time_args=(a_tr,), rec_time_args=(a_rec,))
                 out = EoN.fast_nonMarkov_SIS(G, trans_time_fxn=trans, rec_time_fxn=rec, **kw)
             else:
+                if with_args:
+                    kw.update(trans_and_rec_time_args=(a_tr, a_rec))
                 out = EoN.fast_nonMarkov_SIS(G, trans_and_rec_time_fxn=joint, **kw)
         except RunawayError as e:
             fails.append(Failure('%s:%s:non-termination' % (name, mode), str(e)))
@@ -174,7 +193,7 @@ def prop_ref(case):
     # non-trivial: an attempt falls inside the target's infectious period and a node is infected >= 2 times
     twice = any(hist_w[u][1].count('I') >= 2 for u in nodes)
     n_att = 0
-    classes = ['api=' + case['api']] + (['reinfection'] if twice else []) + (['delays-after-recovery'] if late else []) + (['single-node-form'] if case.get('single') and len(I0) == 1 else [])
+    classes = ['api=' + case['api']] + (['extra-args'] if with_args else []) + (['rule-returns-stored-lists'] if shared else []) + (['reinfection'] if twice else []) + (['delays-after-recovery'] if late else []) + (['single-node-form'] if case.get('single') and len(I0) == 1 else [])
     succ = sum(1 for e in events if e[1] == 'I' and e[3] is not None)
     return Result(fails, nontrivial=twice and succ >= 2, classes=classes)
 
